@@ -287,6 +287,20 @@ func (h *harness) checkHTTPEnv(e HTTPEnv) *failure {
 	return f
 }
 
+// alternativeReadings: POST requests that also carry a `query` URL parameter name two query texts.
+// The code lets the body win (even an absent / empty `query` member); the property statement does
+// not say which one "the operation" is, so the oracle accepts either reading (the correspondence
+// with the model still pins the code's choice).
+func alternativeReadings(e HTTPEnv, c coreCall) []coreCall {
+	out := []coreCall{c}
+	if e.Method == "post" && e.PQuery != nil && *e.PQuery != c.q {
+		alt := c
+		alt.q = *e.PQuery
+		out = append(out, alt)
+	}
+	return out
+}
+
 // expectedCall turns the harness's expectation "(req …)" into the pipeline call of world w.
 func expectedCall(w *world, exp string) (coreCall, bool) {
 	x, err := hx.ParseSexp(exp)
@@ -319,14 +333,18 @@ func (h *harness) httpEnvProperty(e HTTPEnv, exp string) *failure {
 	if !ok {
 		return nil
 	}
-	d, err := h.evalCore(w, c)
-	if err != nil {
-		return nil
+	var d Obs
+	for _, alt := range alternativeReadings(e, c) {
+		var err error
+		d, err = h.evalCore(w, alt)
+		if err != nil {
+			return nil
+		}
+		if o.key() == d.key() {
+			return nil
+		}
 	}
-	if o.key() != d.key() {
-		return &failure{"property", fmt.Sprintf("%s answers %s; the operation it carries (query %q, operationName %q, variables %s) answers %s", desc, o.key(), c.q, c.op, c.vars, d.key())}
-	}
-	return nil
+	return &failure{"property", fmt.Sprintf("%s answers %s; the operation it carries (query %q, operationName %q, variables %s) answers %s", desc, o.key(), c.q, c.op, c.vars, d.key())}
 }
 
 // checkHTTPAPI (A3): the envelope through API.ServeGraphQL of one configuration.
@@ -348,8 +366,16 @@ func (h *harness) checkHTTPAPI(e HTTPEnv, fl Flags) *failure {
 			f = &failure{"property", fmt.Sprintf("malformed envelope %s: status %d, resolver log %q, execute calls %d (want 4xx and nothing executed)", desc, o.Status, o.Calls, len(o.Costs))}
 		}
 	} else if c, ok := expectedCall(w, exp); ok {
-		d, err := h.evalCore(w, c)
-		same := err == nil && d.key() == o.key()
+		same := false
+		var d Obs
+		for _, alt := range alternativeReadings(e, c) {
+			var err error
+			d, err = h.evalCore(w, alt)
+			if err == nil && d.key() == o.key() {
+				same = true
+				break
+			}
+		}
 		h.run.Oblige("oracle: well-formed HTTP envelope answers like the operation it carries (API.ServeGraphQL vs transport-free run)", "oracle", 1, same, desc)
 		h.run.Count("http-api:wellformed")
 		if !same {
@@ -470,7 +496,7 @@ func (w *world) doWSFrame(e WSEnv, expectClose bool) Obs {
 				if expectClose {
 					// the close frame is written by the writer goroutine, possibly after the sentinel's
 					// frames: give it time (the connection must close on the unchanged code)
-					c.conn.SetReadDeadline(time.Now().Add(3 * time.Second))
+					c.conn.SetReadDeadline(time.Now().Add(10 * time.Second))
 					if _, _, err := c.conn.ReadMessage(); err != nil {
 						if _, isClose := err.(*websocket.CloseError); isClose {
 							o.Resp = describeWSErr(err)
@@ -650,6 +676,13 @@ func (h *harness) checkOp(cs Case, verbose bool) opResult {
 			return res
 		}
 		refs[fl] = ref
+		if strings.HasPrefix(ref.Resp, "panic: ") {
+			// the pipeline itself crashes on this operation (C03's subject, not a transport matter);
+			// on the WebSocket path the same panic would take the process down: do not send it
+			h.run.Count("op:pipeline-panics (skipped, see C03)")
+			res.nondeterm = true
+			return res
+		}
 		if len(ref.Calls) > 0 {
 			res.executed = true
 		}
@@ -898,7 +931,17 @@ func (h *harness) runCase(cs Case, verbose bool) *failure {
 		if r.executed {
 			h.run.Count("op:executed-resolvers")
 		} else {
-			h.run.Count("op:rejected-before-execution")
+			h.run.Count("op:no-resolver-ran")
+			if os.Getenv("C17_DEBUG") != "" {
+				ref := r.reference
+				if i := strings.Index(ref, `"message":"`); i >= 0 {
+					ref = ref[i+11:]
+				}
+				if len(ref) > 48 {
+					ref = ref[:48]
+				}
+				h.run.Count("op:rejected:" + ref)
+			}
 		}
 		return r.fail
 	case "http-env":
@@ -1106,7 +1149,7 @@ func main() {
 	run.SetExhaustive(false)
 	run.Note("A1 enumerated all %d combinations of abstract envelope classes (spellings random)", n)
 	// more random spellings, biased to the accepting branches
-	for i := 0; i < run.Scale(1500, 40000); i++ {
+	for i := 0; i < run.Scale(5000, 60000); i++ {
 		r := run.Rand.Fork()
 		method := hx.Pick(r, []string{"get", "get", "post", "post", "post", "other"})
 		e := buildHTTPEnv(r, method, r.Chance(3, 4), hx.Pick(r, []string{"absent", "empty", "null", "obj", "obj", "obj", "bad"}), r.Bool(),
@@ -1120,8 +1163,9 @@ func main() {
 		}
 	}
 
+	run.Note("phase A1/A3 done at %.1fs", run.Elapsed().Seconds())
 	// A2 / A4: WebSocket envelopes
-	for i := 0; i < run.Scale(240, 6000); i++ {
+	for i := 0; i < run.Scale(960, 12000); i++ {
 		r := run.Rand.Fork()
 		kind := []string{cGqlWs, cTransportWs}[i%2]
 		didInit := (i/2)%4 != 0
@@ -1136,6 +1180,7 @@ func main() {
 		}
 	}
 
+	run.Note("phase A2/A4 done at %.1fs", run.Elapsed().Seconds())
 	// B: the differential
 	for i, op := range handOps() {
 		op := op
@@ -1143,7 +1188,7 @@ func main() {
 		h.report(cs, h.runCase(cs, false))
 		run.Count("op:hand-written")
 	}
-	for i := 0; i < run.Scale(260, 9000); i++ {
+	for i := 0; i < run.Scale(600, 20000); i++ {
 		r := run.Rand.Fork()
 		spec, op := genOp(r)
 		cs := Case{Kind: "op", Seed: r.Uint64(), Op: &op, Spec: &spec}
@@ -1164,6 +1209,7 @@ func main() {
 			run.Count("op:with-operation-name")
 		}
 	}
+	run.Note("phase B done at %.1fs", run.Elapsed().Seconds())
 	run.Finish(h.model)
 }
 
